@@ -708,4 +708,63 @@ example : lonlatWrap true (180 : Rat) 360 (-100) 100 = (100, 260) := by decide +
 example : closeRing ([⟨0, 0⟩, ⟨1, 1⟩, ⟨0, 0⟩] : List (Pt Int)) = .ok [⟨0, 0⟩, ⟨1, 1⟩, ⟨0, 0⟩, ⟨0, 0⟩] := by decide
 example : ∃ e, closeRing ([⟨0, 0⟩, ⟨1, 1⟩] : List (Pt Int)) = .error e := ⟨_, rfl⟩
 
+/-! ### `projected_lon`, `chop_along_antimeridian`, `_geojson_to_shapely` -/
+
+/-- **`projected_lon`**: the line handed to `intersects` / `split` is either empty or has at least two
+vertices, every vertex projected cleanly, and the vertices are images of sampled points of the meridian
+in sampling order (nothing invented, nothing reordered) -/
+theorem projectedLon_spec (tr : Pt K → Pt K) (finite : Pt K → Bool) (lon : K) (ys : List K) :
+    (projectedLon tr finite lon ys = [] ∨ 2 ≤ (projectedLon tr finite lon ys).length) ∧
+    (∀ p ∈ projectedLon tr finite lon ys, finite p = true) ∧
+    List.Sublist (projectedLon tr finite lon ys) (ys.map (fun y => tr ⟨lon, y⟩)) := by
+  unfold projectedLon
+  dsimp only
+  by_cases h : ((ys.map (fun y => tr ⟨lon, y⟩)).filter finite).length < 2
+  · simp [h]
+  · simp only [h, if_false]
+    refine ⟨Or.inr (by omega), ?_, List.filter_sublist⟩
+    intro p hp
+    exact (List.mem_filter.mp hp).2
+
+/-- **`chop_along_antimeridian`**: refuses a geometry without CRS; a geometry that does not meet the
+projected antimeridian is handed back untouched; one that does is `multigeom` of the pieces of the
+split — so a chopped polygon / line comes back as the `Multi*` of its pieces -/
+theorem chopFull_spec (l180 : List (Pt K)) (hit : List (Pt K) → Geom K → Bool)
+    (split : List (Pt K) → Geom K → List (Geom K)) (g : Geom K) :
+    chopFull none l180 hit split g = .error (.base .valueError) ∧
+    (∀ c, hit l180 g = false → chopFull (some c) l180 hit split g = .ok g) ∧
+    (∀ c, hit l180 g = true → chopFull (some c) l180 hit split g = multigeomRaw (split l180 g)) := by
+  refine ⟨rfl, ?_, ?_⟩ <;> intro c h <;> simp [chopFull, chopAlong, h]
+
+/-- the re-assembly of polygon pieces is the MultiPolygon of exactly those pieces, in order -/
+theorem multigeom_polygon_pieces (gs : List (Geom K)) (hne : gs ≠ [])
+    (hall : ∀ g ∈ gs, ∃ ext holes, g = .polygon ext holes ∧ ext ≠ []) :
+    multigeomRaw gs = .ok (.multiPolygon gs) := by
+  have h := multigeom_polygons (K := K) id (fun _ => rfl) gs hne hall
+  have hid : ∀ l : List (Geom K), l.map (mapRings id) = l := by
+    intro l
+    induction l with
+    | nil => rfl
+    | cons a l ih =>
+      rw [List.map_cons, ih, mapRings_id id a (fun _ _ => rfl)]
+  rwa [hid] at h
+
+/-- **`Geometry(dict)`**: a Feature is its geometry; a FeatureCollection with exactly one feature is
+that feature's geometry (not a one-member multi-geometry); any other number of features goes through
+`_multigeom` — none at all is a `KeyError`; a dict without `"type"` is refused -/
+theorem geojsonToShape_spec (g : Geom K) (fs : List (Geom K)) :
+    geojsonToShape (.feature g) = .ok g ∧ geojsonToShape (.geometry g) = .ok g ∧
+    geojsonToShape (.featureCollection [g]) = .ok g ∧
+    geojsonToShape (.featureCollection ([] : List (Geom K))) = .error .keyError ∧
+    geojsonToShape (GJIn.noType : GJIn K) = .error (.base .valueError) ∧
+    (fs.length ≠ 1 → geojsonToShape (.featureCollection fs) = multigeomRaw fs) := by
+  refine ⟨rfl, rfl, rfl, rfl, rfl, ?_⟩
+  intro h
+  cases fs with
+  | nil => rfl
+  | cons a rest =>
+    cases rest with
+    | nil => exact absurd rfl h
+    | cons b rest => rfl
+
 end OdcGeo.C07
